@@ -277,6 +277,51 @@ def actor_exits(ctx):
                   "on termination the actor neither leaves its loop nor (cancels the running build, records the termination and leaves when the build result arrives)")
 
 
+@rule("C04.LOOP-ONLY-LEFT-ON-TERMINATION", ["C04", "C06"], """an actor leaves its message loop only because it was told to terminate (directly in the termination arm, or under a flag that starts false and is
+      set only in that arm) or because its inbox closed: an actor that stops listening for any other reason never answers a later requester, and never rebuilds""", "K1", floor=3)
+def loop_only_left_on_termination(ctx):
+    r = ctx.r
+    for a in r.actors():
+        lab = r.actor_label(a)
+        arms = arm_by_payload(a, lambda p: "TerminationMessage" in p)
+        ctx.need(len(arms) == 1, f"termination arm in {lab}")
+        arm = arms[0]
+        loops = a.natural_loops()
+        ctx.need(loops, f"actor loop in {lab}")
+        h, blks, exits = max(loops, key=lambda l: len(l[1]))
+        bad = []
+        n = 0
+        for e in exits:
+            if a.term(e.dst)["k"] in ("unreachable",) or a.blocks[e.dst].get("cleanup"):
+                continue
+            n += 1
+            if e.src in arm.region or e.src == arm.edge.dst or e.dst in arm.region:
+                continue
+            l = e.label
+            if l and l[0] == "variant" and set(l[2]) <= {"None", "Err", "Break"}:
+                continue   # the inbox (or the select) is exhausted / closed
+            ok = False
+            if l and l[0] == "bool" and l[2] is not None:
+                flags = [x for x in _locals_read(a, l[2]) if a.locals[x].get("name") and a.locals[x]["ty"] == "bool"]
+                for fl in flags:
+                    defs = a.prov.defs.get(fl, ())
+                    good = bool(defs)
+                    for kind, x, bb in defs:
+                        v = const_val(x["rv"]["op"]) if kind == "assign" and x["rv"]["k"] == "use" else None
+                        if v == "false" and bb not in blks:
+                            continue
+                        if v == "true" and (bb in arm.region or bb == arm.edge.dst):
+                            continue
+                        good = False
+                    if good and l[1] is True:
+                        ok = True
+            if not ok:
+                bad.append(e)
+        ctx.need(n >= 1, f"exit of the actor loop in {lab}")
+        ctx.check(not bad, f"{lab}/exits", [site(a, e.src) for e in bad[:4]] or [a.loc(h)],
+                  "the actor can leave its message loop without having been told to terminate (an exit that is neither in the termination arm nor under a flag that is false until that arm sets it)")
+
+
 def _locals_read(body, l, depth=0):
     out = {l}
     if depth > 5:
@@ -651,6 +696,26 @@ def keepalive_guard(ctx):
         Gne = guard_region(rel, nonempty, False)
         for w in waits:
             ctx.check(w.producer[0] in Gne, f"{lab}/final-wait-guard", [site(rel, w.into_bb)], "the final wait is not guarded by `!service_roots.is_empty()`: a build-only run would never exit")
+            # ... and by nothing that could be false after a successful run: besides the non-empty test only "no termination was received yet" (a flag
+            # that is false until the termination arm of the relay's select sets it)
+            tarms = arm_by_payload(rel, lambda p: "TerminationMessage" in p)
+            treg = set().union(*[x.region | {x.edge.dst} for x in tarms]) if tarms else set()
+            odd = []
+            for (e, descs, pol) in dominating_conditions(rel, w.producer[0]):
+                if any(nonempty(d) for d in descs) or any(d[0] == "not" and any(nonempty(x) for x in d[1]) for d in descs):
+                    continue
+                if not conditions_within([(e, descs, pol)], []):
+                    continue   # logging-level test
+                flags = [x for x in _locals_read(rel, e.label[2]) if rel.locals[x].get("name") and rel.locals[x]["ty"] == "bool"]
+                is_term_flag = False
+                for fl in flags:
+                    defs = rel.prov.defs.get(fl, ())
+                    if defs and all(kind == "assign" and x["rv"]["k"] == "use" and ((const_val(x["rv"]["op"]) == "false" and bb not in blks) or (const_val(x["rv"]["op"]) == "true" and bb in treg)) for kind, x, bb in defs):
+                        is_term_flag = True
+                if is_term_flag and pol is False:
+                    continue
+                odd.append((e, descs, pol))
+            ctx.check(not odd, f"{lab}/final-wait-reached", [site(rel, w.into_bb)], "after a successful run with a requested service the final wait is skipped unless a further condition holds (" + fmt_conds(odd) + "): zinoma would exit and stop the service")
 
 
 @rule("C11.STOP-DOMINATES-SPAWN", ["C11", "C10"], """restarting a service stops the old instance (awaited) before spawning the new one""", "K1", floor=1)
